@@ -206,7 +206,7 @@ fn check(case: &Case, handler: &mut SixelImageHandler) -> Outcome {
                 // a fresh handler may order the colours of a band differently (hash-map order): compare pictures
                 let same = if fresh {
                     match (decode(&sink.data), decode(&first)) {
-                        (Ok(a), Ok(b)) => a.width == b.width && a.height == b.height && a.pix == b.pix && sink.data.len() == first.len(),
+                        (Ok(a), Ok(b)) => a.width == b.width && a.height == b.height && a.pix == b.pix,
                         _ => false,
                     }
                 } else {
